@@ -23,10 +23,10 @@
    crash after EVERY batch write, restarted, resumed — same final database as uninterrupted.
 4. The same two bindings with ABSOLUTE block numbers across a boundary of the real window size
    (scenarios w0 / w1: the world starts from the image of an earlier life — chain 0..Base pruned
-   up to Base, Base = 8184 — so that the dozen blocks of a behaviour straddle block 8192; the set
-   of persisted windows is part of the projection compared after every step and every batch
-   write), and binding (c): directed boundary scenarios — the oldest retained block placed on
-   8190..8193 by the real service, batches of one block and of all, event index cold / warm /
+   up to Base, Base = 8184 / 16376 — so that the dozen blocks of a behaviour straddle block 8192 /
+   16384; the set of persisted windows is part of the projection compared after every step and
+   every batch write), and binding (c): directed boundary scenarios — the oldest retained block
+   placed on kW-2..kW+1 (k = 1, 2) by the real service, batches of one block and of all, event index cold / warm /
    not yet initialised / re-initialised after a crash or a graceful stop — judged by unfiltered
    and filtered event queries against a scan of the twin's receipts.
 """
@@ -34,15 +34,17 @@ import json
 import vlib
 
 WIN = 8192          # core.NumBlocksPerFilter (the engine refuses behaviours generated for another size)
-WBASE = WIN - 8     # first block of the boundary scenarios' initial chain
+WBASE = WIN - 8     # first block of the boundary scenarios' initial chain: across block W (the first window, which
+                    # the code treats apart) ...
+WBASE2 = 2 * WIN - 8  # ... and across block 2W (a window in the middle; its predecessor already pruned)
 SCEN = {
     # name: MaxH InitH MaxL1 Retained PruneBatch L2PerPrune MinAge [Base]
     "r1": dict(MaxH=13, InitH=11, MaxL1=15, Retained=1, PruneBatch=2, L2PerPrune=2, MinAge=True),
     "r0": dict(MaxH=13, InitH=10, MaxL1=15, Retained=0, PruneBatch=1, L2PerPrune=1, MinAge=False),
     "r3": dict(MaxH=13, InitH=12, MaxL1=15, Retained=3, PruneBatch=99, L2PerPrune=1, MinAge=True),
     "r20": dict(MaxH=13, InitH=11, MaxL1=30, Retained=20, PruneBatch=1, L2PerPrune=1, MinAge=False),
-    # across block 8192: L1 heads near the local head put the oldest retained block on 8190..8193
-    "w1": dict(MaxH=WBASE + 13, InitH=WBASE + 11, MaxL1=WBASE + 15, Retained=1, PruneBatch=2, L2PerPrune=1, MinAge=True, Base=WBASE),
+    # across a window boundary: L1 heads near the local head put the oldest retained block on kW-2..kW+1
+    "w1": dict(MaxH=WBASE2 + 13, InitH=WBASE2 + 11, MaxL1=WBASE2 + 15, Retained=1, PruneBatch=2, L2PerPrune=1, MinAge=True, Base=WBASE2),
     "w0": dict(MaxH=WBASE + 13, InitH=WBASE + 10, MaxL1=WBASE + 15, Retained=0, PruneBatch=1, L2PerPrune=1, MinAge=False, Base=WBASE),
 }
 
@@ -130,6 +132,15 @@ def run(ctx):
     # ---- 1. TLC on the specification (repaired design)
     ctx.tlc_check("chain", "MCPrune.tla", "Prune_quick.cfg", timeout=900)
     ctx.tlc_check("chain", "MCPrune.tla", "Prune_quick_r0.cfg", timeout=900)
+    # the bound of the persisted-window delete moved by one block must be caught by the model's properties
+    xw = [("Prune_x_winbound.cfg", ("EventsCovered",))]
+    if thorough:
+        xw.append(("Prune_x_winleak.cfg", ("BelowFloorClean", "Resumable")))
+    for cfg, must in xw:
+        r = ctx.tlc_check("chain", "MCPrune.tla", cfg, timeout=900, expect_violation=True,
+                          label="model with the window delete bound off by one, %s (expected to violate)" % cfg)
+        if r["ok"] or r["violated"] not in must:
+            raise vlib.Broken("%s: expected a violation of %s, TLC reports %s" % (cfg, " / ".join(must), r["violated"]))
     cov = None
     if thorough:
         for cfg in ("Prune_thorough.cfg", "Prune_thorough_r0.cfg", "Prune_thorough_r3.cfg", "Prune_thorough_r20.cfg"):
@@ -144,8 +155,13 @@ def run(ctx):
             vlib.require_actions_covered(cov)
         if thorough:
             for wname in ("NeverCancelledMidSweep", "NeverCrashedMidSweep", "NeverHeaderPruned", "NeverTimeFloorBinds",
-                          "NeverL2PathPrunes"):
+                          "NeverL2PathPrunes", "NeverFloorOnWindowEnd", "NeverFloorOnWindowStart",
+                          "NeverWindowDeletedMidSweep", "NeverWindowReopened", "NeverPruneBeforeInit",
+                          "NeverAnchorlessRebuild"):
                 txt, _ = cfg_text("r1", repaired, max_steps=6)
+                if wname == "NeverAnchorlessRebuild":
+                    # the oldest retained block inside the head's window: Retained 0, head 10, L1 head 9
+                    txt, _ = cfg_text("r0", repaired, max_steps=4)
                 if wname == "NeverTimeFloorBinds":
                     # needs young blocks below an L1 head that is below the local head: a shorter old chain
                     txt = txt.replace("InitH = 11", "InitH = 9")
@@ -173,11 +189,17 @@ def run(ctx):
 
     # ---- 2./3. binding
     new_state = [False, True]
-    n_conf = {"r1": 100, "r0": 100, "r3": 60, "r20": 20} if thorough else {"r1": 18, "r0": 18, "r3": 12, "r20": 5}
-    n_enum = {"r1": 25, "r0": 25, "r3": 15, "r20": 0} if thorough else {"r1": 6, "r0": 6, "r3": 4, "r20": 0}
+    # the image of 16376 blocks is built for the legacy state only in quick
+    new_state_of = {"w1": [False]} if not thorough else {}
+    n_conf = ({"r1": 100, "r0": 100, "r3": 60, "r20": 20, "w1": 50, "w0": 50} if thorough else
+              {"r1": 18, "r0": 18, "r3": 12, "r20": 5, "w1": 6, "w0": 8})
+    # (an interruption trial across the real boundary costs 4x one from genesis: every legacy history read copies
+    # the memory database with its 8 MB filter rows; thorough only)
+    n_enum = ({"r1": 25, "r0": 25, "r3": 15, "r20": 0, "w1": 6, "w0": 8} if thorough else
+              {"r1": 6, "r0": 6, "r3": 4, "r20": 0, "w1": 0, "w0": 0})
     # Pebble (thorough): every trial opens and closes a database directory: a slice only
-    n_pebble_conf = {"r1": 20, "r0": 20, "r3": 10}
-    n_pebble_enum = {"r0": 4, "r1": 3}
+    n_pebble_conf = {"r1": 20, "r0": 20, "r3": 10, "w0": 10}
+    n_pebble_enum = {"r0": 4, "r1": 3, "w0": 2}
     total_conf = total_enum = 0
     for i, sc in enumerate(SCEN):
         txt, c = cfg_text(sc, faithful, interrupts=True, mbt=True)
@@ -189,7 +211,7 @@ def run(ctx):
             runs.append(("pebble", bs[:n_pebble_conf[sc]]))
         for be, part in runs:
             res = engine(ctx, binary, "TestPruneConform",
-                         {"consts": c, "behaviours": part, "newState": new_state, "backends": [be]}, timeout=3000)
+                         {"consts": c, "behaviours": part, "newState": new_state_of.get(sc, new_state), "backends": [be]}, timeout=3000)
             ctx.absorb(res, "prune", "TestPruneConform")
             vlib.log("engine TestPruneConform %s %s: %d behaviours, %.0fs" % (sc, be, len(part), res["_wall_s"]))
         if n_enum[sc]:
@@ -205,9 +227,16 @@ def run(ctx):
                 if not part:
                     continue
                 res = engine(ctx, binary, "TestPruneEnum",
-                             {"consts": c, "behaviours": part, "newState": new_state, "backends": [be]}, timeout=3000)
+                             {"consts": c, "behaviours": part, "newState": new_state_of.get(sc, new_state), "backends": [be]}, timeout=3000)
                 ctx.absorb(res, "prune", "TestPruneEnum")
                 vlib.log("engine TestPruneEnum %s %s: %d sequences, %.0fs" % (sc, be, len(part), res["_wall_s"]))
+    # directed boundary scenarios on the real window size (quick: every mode on the legacy state, two on the new one)
+    plans = [] if thorough else [{"newState": False, "k": [1], "modes": ["cold", "warm", "lazy", "graceful", "step"]},
+                                 {"newState": False, "k": [2], "modes": ["cold", "crash", "step"]},
+                                 {"newState": True, "k": [1], "modes": ["cold"]}]
+    res = engine(ctx, binary, "TestPruneWindow", {"plans": plans}, timeout=1500)
+    ctx.absorb(res, "prune", "TestPruneWindow")
+    vlib.log("engine TestPruneWindow: %s boundary cases, %.0fs" % (res.get("stats", {}).get("window_cases"), res["_wall_s"]))
     res = engine(ctx, binary, "TestPruneConcurrent", {"newState": [False, True]}, timeout=1500)
     ctx.absorb(res, "prune", "TestPruneConcurrent")
     vlib.log("engine TestPruneConcurrent: %s reads in %s rounds, %.0fs" % (
@@ -238,8 +267,11 @@ def run(ctx):
     return ctx.finish(
         "model_checking",
         "exhaustive TLC on Prune.tla (repaired design; chain of 12-14 blocks so that the 10-block header carve-out is "
-        "crossed; Retained 0/1/3/20; batches of 1/2/all blocks; cancellation or crash after every batch write) + "
+        "crossed and, with event-filter windows of 4 blocks, the oldest retained block lands on every residue; Retained "
+        "0/1/3/20; batches of 1/2/all blocks; cancellation or crash after every batch write) + "
         "TLC-simulated behaviours replayed on a real pruning node with the real pruner service (conformance after every "
         "step and every batch write, all reads against an unpruned twin) + every batch write of every prune of "
-        "interruption-free behaviours cancelled/crashed, restarted and resumed; non-trivial = the behaviour contains at "
-        "least one delivered trigger event")
+        "interruption-free behaviours cancelled/crashed, restarted and resumed; the same from the image of a node "
+        "pruned up to block 8184 / 16376 so that the behaviours straddle the real window boundary 8192 / 16384, plus directed "
+        "scenarios placing the oldest retained block on kW-2..kW+1 (k = 1, 2) under six states of the event index; non-trivial = the behaviour "
+        "contains at least one delivered trigger event")
